@@ -5,6 +5,7 @@ import (
 	"math/big"
 
 	"github.com/ontio/ontology/common"
+	nutils "github.com/ontio/ontology/smartcontract/service/native/utils"
 )
 
 type seed struct {
@@ -22,6 +23,16 @@ func corpusSeeds(w *world) map[string]seed {
 	rmC2 := nStruct(nS(w.ctlID()), nI(0), nI(1))
 	rmR := nStruct(nS(w.ids[0]), nI(0), nB(w.signers(1)))
 	out := fsSeeds(w)
+	// governance.updateConfig(N 7, C 1, K 0, L 112, ...) signed by the admin (the bookkeeper)
+	cfg := nStruct(nI(7), nI(1), nI(0), nI(112), nI(10000), nI(10000), nI(10000), nI(1000))
+	out["governance-updateconfig-k0"] = seed{
+		note: "repaired defect (0545dab5): governance.updateConfig with K = 0 evaluated `configuration.L % configuration.K` before any test of K: 'integer divide by zero' in block execution (admin witness needed; in pre-execution anyone can name the admin's key, signatures are not verified there).",
+		p: Probe{Name: "corpus:governance-updateconfig-k0",
+			Txs: []TxSpec{{Kind: "native", Contract: addrHex(nutils.GovernanceContractAddress), Method: "updateConfig", Args: &cfg, Signers: []int{-1}}}}}
+	out["gasprice-2pow59"] = seed{
+		note: "repaired defect (96f31c72, found by C05): tuneGasFeeByHeight divided by gasRound == 0 when GasPrice is a multiple of 2^59; a transaction with GasPrice 2^59 in a block must execute (or be refused) without a panic.",
+		p: Probe{Name: "corpus:gasprice-2pow59", BlockOnly: true,
+			Txs: []TxSpec{{Kind: "code", Code: "51", Signers: []int{0}, GasLimit: 20000, GasPrice: 1 << 59}}}}
 	for k, v := range ontidSeeds(w, regA, regB, rmC, rmC2, rmR) {
 		out[k] = v
 	}
